@@ -274,6 +274,21 @@ Proof.
     eapply Forall_impl; [|apply encode_pair_safe]. intros c [Hc _]. exact Hc.
 Qed.
 
+(* the form the handlers see (errors dropped by the logging handler) is the strict parse whenever that succeeds *)
+Lemma collect_of_parse segs : forall ps, parse_segments segs = Some ps -> collect_segments segs = ps.
+Proof.
+  induction segs as [|seg rest IH]; intros ps H; cbn [parse_segments collect_segments] in *; [inversion H; reflexivity|].
+  destruct (existsb (N.eqb semicolon) seg); [discriminate|].
+  destruct (is_nil seg); [apply IH; exact H|].
+  destruct (cut_eq seg) as [k v]. destruct (query_unescape k); [|discriminate]. destruct (query_unescape v); [|discriminate].
+  destruct (parse_segments rest) as [t|]; [|discriminate]. inversion H; subst. f_equal. apply IH. reflexivity.
+Qed.
+
+Theorem form_of_encode_query ps : Forall pair_bytes_ok ps -> form_of_query (encode_query ps) = ps.
+Proof.
+  intros H. unfold form_of_query. apply collect_of_parse. exact (parse_encode_query ps H).
+Qed.
+
 (* ---- everything the proxy writes into the query is plain bytes ---- *)
 Lemma enc_char_byte v : enc_char v < 256.
 Proof. unfold enc_char. split_ifs; lia. Qed.
@@ -390,7 +405,7 @@ Proof. repeat split; reflexivity. Qed.
 Theorem proxy_signout base secret secure origin_form host now :
   let r := proxy_sign_out mac base secret secure origin_form host now in
   let uri := url_string (proxy_scheme secure origin_form) host in
-  p_status r = 302%Z /\ p_clears r = true /\ l_base (p_loc r) = base /\
+  p_status r = 302%Z /\ p_clears r = true /\ p_sets_live r = false /\ p_asks r = false /\ l_base (p_loc r) = base /\
   l_params (p_loc r) = [(k_redirect_uri, uri); (k_sig, b64_encode (mac secret (uri ++ dec now))); (k_ts, dec now)] /\
   (host_plain host = true -> origin_form = true ->
      uri = (if secure then s_https else s_http) ++ colon_slash_slash ++ host ++ [47]) /\
